@@ -588,9 +588,22 @@ func genC05Facts() {
 			if len(fd.Body.List) == 1 {
 				if rs, ok := fd.Body.List[0].(*ast.ReturnStmt); ok && len(rs.Results) == 1 {
 					if fl, ok := rs.Results[0].(*ast.FuncLit); ok {
+						// parameter names are immaterial: the closure's
+						// account is `account`, the constructor's argument `arg`
+						env := map[string]string{}
+						for _, fld := range fd.Type.Params.List {
+							for _, nm := range fld.Names {
+								env[nm.Name] = "arg"
+							}
+						}
+						for _, fld := range fl.Type.Params.List {
+							for _, nm := range fld.Names {
+								env[nm.Name] = "account"
+							}
+						}
 						body = nil
 						for _, st := range fl.Body.List {
-							body = append(body, c05StmtString(st))
+							body = append(body, c05Subst(c05StmtString(st), env))
 						}
 					}
 				}
@@ -610,6 +623,7 @@ func genC05Facts() {
 	// conditional ones with their condition, and the ones after the switch
 	var recreated, closed, common []string
 	var recreatedCond []string
+	storerEnv := map[string]string{}
 	collect := func(stmts []ast.Stmt, uncond *[]string, cond *[]string) {
 		for _, s := range stmts {
 			switch x := s.(type) {
@@ -618,7 +632,7 @@ func genC05Facts() {
 					if c, ok := x.Rhs[0].(*ast.CallExpr); ok && exprString(c.Fun) == "append" && len(c.Args) > 1 &&
 						exprString(c.Args[0]) == "modifiers" {
 						for _, a := range c.Args[1:] {
-							*uncond = append(*uncond, c05OneLine(exprString(a)))
+							*uncond = append(*uncond, c05Subst(c05OneLine(exprString(a)), storerEnv))
 						}
 					}
 				}
@@ -636,14 +650,14 @@ func genC05Facts() {
 						if as, ok := s2.(*ast.AssignStmt); ok && len(as.Rhs) == 1 {
 							if c, ok := as.Rhs[0].(*ast.CallExpr); ok && exprString(c.Fun) == "append" {
 								for _, a := range c.Args[1:] {
-									inner = append(inner, c05OneLine(exprString(a)))
+									inner = append(inner, c05Subst(c05OneLine(exprString(a)), storerEnv))
 								}
 							}
 						}
 					}
 				}
 				collectInner(x.Body.List)
-				*cond = append(*cond, "(\""+c05OneLine(exprString(x.Cond))+"\", "+leanStrList(inner)+")")
+				*cond = append(*cond, "(\""+c05CanonCmp(x.Cond, storerEnv)+"\", "+leanStrList(inner)+")")
 			}
 		}
 	}
@@ -652,8 +666,21 @@ func genC05Facts() {
 		if !ok || exprString(rs.X) != "batch.AccountDiffs" {
 			return true
 		}
+		if id, ok := rs.Value.(*ast.Ident); ok {
+			storerEnv[id.Name] = "diff"
+		}
 		for _, s := range rs.Body.List {
-			if sw, ok := s.(*ast.SwitchStmt); ok && exprString(sw.Tag) == "diff.EndingState" {
+			if as, ok := s.(*ast.AssignStmt); ok && len(as.Rhs) == 1 && len(as.Lhs) >= 1 {
+				if c, ok := as.Rhs[0].(*ast.CallExpr); ok && exprString(c.Fun) == "s.getAccount" {
+					if id, ok := as.Lhs[0].(*ast.Ident); ok {
+						storerEnv[id.Name] = "acct"
+					}
+				}
+			}
+		}
+		for _, s := range rs.Body.List {
+			if sw, ok := s.(*ast.SwitchStmt); ok && sw.Tag != nil &&
+				c05Subst(exprString(sw.Tag), storerEnv) == "diff.EndingState" {
 				for _, c := range sw.Body.List {
 					cc := c.(*ast.CaseClause)
 					names := c05Join(cc.List, exprString)
